@@ -275,6 +275,10 @@ class FTPProcessorSession(BaseProcessorSession):
 
                 return
 
+            # The directory prefix of the downloads may not exist yet.
+            os.makedirs(self._item_session.app_session.root_path,
+                        exist_ok=True)
+
             temp_file = tempfile.NamedTemporaryFile(
                 dir=self._item_session.app_session.root_path,
                 prefix='tmp-wpull-list'
